@@ -172,8 +172,8 @@ class _Overwritable(Contract):
     def modifies(self, S):
         if S.inst.get('overwrite'):
             me = S.o['self']
-            return [me.ref, me.row_dims.ref, me.col_dims.ref, me.ranks.ref, me.cores.ref], None
-        return [], None
+            return [me.ref, me.row_dims.ref, me.col_dims.ref, me.ranks.ref, me.cores.ref], []
+        return [], []
 
     def common_ensures(self, S, res):
         me0 = S.o['self']
@@ -935,11 +935,9 @@ class _Sweep(Contract):
         me = S.o['self']
         lo, hi = self.written_core_range(S)
         d = zi(me.order)
-
-        def bufp(buf, state):
-            j = fresh('jw')
-            return z3.Exists([j], z3.And(lo <= j, j <= hi, j >= 0, j < d, buf == lst_get(me.cores, j).buf))
-        return [me.ref, me.cores.ref, me.ranks.ref], bufp
+        lo2 = z3.If(lo < 0, z3.IntVal(0), lo)
+        hi2 = z3.If(hi > d - 1, d - 1, hi)
+        return [me.ref, me.cores.ref, me.ranks.ref], [(lo2, hi2, lambda j: lst_get(me.cores, j).buf)]
 
 
 @register
@@ -988,6 +986,7 @@ class OrthoLeft(_Sweep):
         yield 'ranks-outside-sweep-unchanged', FA(0, d + 1, lambda j: z3.Implies(z3.Not(z3.And(s < j, j <= e + 1)), lst_get(me.ranks, j) == lst_get(me0.ranks, j)))
         yield 'cores-outside-sweep-untouched', FA(0, d, lambda j: z3.Implies(z3.Or(j < s, j > e + 1), z3.And(
             lst_get(me.cores, j).buf == lst_get(me0.cores, j).buf, *[f == g for f, g in zip(lst_get(me.cores, j).flags.values(), lst_get(me0.cores, j).flags.values())])))
+        yield 'core-buffers-fresh-or-own-slot', FA(0, d, lambda j: z3.Or(lst_get(me.cores, j).buf >= S.mark0, lst_get(me.cores, j).buf == lst_get(me0.cores, j).buf))
         yield 'processed-cores-left-orthonormal', FA(0, d, lambda j: z3.Implies(z3.And(s <= j, j <= e), lst_get(me.cores, j).flags['lorth']))
         yield 'ranks<=max_rank', FA(0, d + 1, lambda j: z3.Implies(z3.And(s < j, j <= e + 1), cap_ok(lst_get(me.ranks, j), mr)))
         yield 'positive-ranks', FA(0, d + 1, lambda j: lst_get(me.ranks, j) >= 1)
@@ -1018,6 +1017,7 @@ class OrthoLeft(_Sweep):
             yield 'current-core-fresh-or-entry', z3.Implies(z3.And(i >= 0, i < d), z3.If(
                 i <= s, z3.And(cur.buf == cur0.buf, cur.cplx == cur0.cplx, *[f == g for f, g in zip(cur.flags.values(), cur0.flags.values())]),
                 cur.buf >= V.mark0))
+            yield 'buffers', FA(0, d, lambda j: z3.Or(lst_get(me.cores, j).buf >= V.mark0, lst_get(me.cores, j).buf == lst_get(me0.cores, j).buf))
             yield 'lorth', FA(0, d, lambda j: z3.Implies(z3.And(s <= j, j < i), lst_get(me.cores, j).flags['lorth']))
             yield 'caps', FA(0, d + 1, lambda j: z3.Implies(z3.And(s < j, j <= i), cap_ok(lst_get(me.ranks, j), mr)))
         return inv
@@ -1086,6 +1086,7 @@ class OrthoRight(_Sweep):
         yield 'ranks-outside-sweep-unchanged', FA(0, d + 1, lambda j: z3.Implies(z3.Not(z3.And(e <= j, j <= s)), lst_get(me.ranks, j) == lst_get(me0.ranks, j)))
         yield 'cores-outside-sweep-untouched', FA(0, d, lambda j: z3.Implies(z3.Or(j < e - 1, j > s), z3.And(
             lst_get(me.cores, j).buf == lst_get(me0.cores, j).buf, *[f == g for f, g in zip(lst_get(me.cores, j).flags.values(), lst_get(me0.cores, j).flags.values())])))
+        yield 'core-buffers-fresh-or-own-slot', FA(0, d, lambda j: z3.Or(lst_get(me.cores, j).buf >= S.mark0, lst_get(me.cores, j).buf == lst_get(me0.cores, j).buf))
         yield 'processed-cores-right-orthonormal', FA(0, d, lambda j: z3.Implies(z3.And(e <= j, j <= s), lst_get(me.cores, j).flags['rorth']))
         yield 'ranks<=max_rank', FA(0, d + 1, lambda j: z3.Implies(z3.And(e <= j, j <= s), cap_ok(lst_get(me.ranks, j), mr)))
         yield 'positive-ranks', FA(0, d + 1, lambda j: lst_get(me.ranks, j) >= 1)
@@ -1116,6 +1117,7 @@ class OrthoRight(_Sweep):
             yield 'current-core-fresh-or-entry', z3.Implies(z3.And(i >= 0, i < d), z3.If(
                 i >= s, z3.And(cur.buf == cur0.buf, cur.cplx == cur0.cplx, *[f == g for f, g in zip(cur.flags.values(), cur0.flags.values())]),
                 cur.buf >= V.mark0))
+            yield 'buffers', FA(0, d, lambda j: z3.Or(lst_get(me.cores, j).buf >= V.mark0, lst_get(me.cores, j).buf == lst_get(me0.cores, j).buf))
             yield 'rorth', FA(0, d, lambda j: z3.Implies(z3.And(i < j, j <= s), lst_get(me.cores, j).flags['rorth']))
             yield 'caps', FA(0, d + 1, lambda j: z3.Implies(z3.And(i < j, j <= s), cap_ok(lst_get(me.ranks, j), mr)))
         return inv
@@ -1142,10 +1144,7 @@ class Ortho(Contract):
         me = S.o['self']
         d = zi(me.order)
 
-        def bufp(buf, state):
-            j = fresh('jw')
-            return z3.Exists([j], z3.And(j >= 0, j < d, buf == lst_get(me.cores, j).buf))
-        return [me.ref, me.cores.ref, me.ranks.ref], bufp
+        return [me.ref, me.cores.ref, me.ranks.ref], [(z3.IntVal(0), d - 1, lambda j: lst_get(me.cores, j).buf)]
 
     def ensures(self, S, res):
         me0, me = S.o['self'], S.a['self']
@@ -1157,6 +1156,7 @@ class Ortho(Contract):
         yield 'order-and-dims-unchanged', z3.And(zi(me.order) == d, same_ints(me.row_dims, me0.row_dims, d), same_ints(me.col_dims, me0.col_dims, d))
         yield 'ranks-never-increase', FA(0, d + 1, lambda j: lst_get(me.ranks, j) <= lst_get(me0.ranks, j))
         yield 'boundary-ranks-unchanged', z3.And(lst_get(me.ranks, 0) == lst_get(me0.ranks, 0), lst_get(me.ranks, d) == lst_get(me0.ranks, d))
+        yield 'core-buffers-fresh-or-own-slot', FA(0, d, lambda j: z3.Or(lst_get(me.cores, j).buf >= S.mark0, lst_get(me.cores, j).buf == lst_get(me0.cores, j).buf))
         yield 'cores-1..d-1-right-orthonormal', FA(1, d, lambda j: lst_get(me.cores, j).flags['rorth'])
         yield 'interior-ranks<=max_rank', FA(1, d, lambda j: cap_ok(lst_get(me.ranks, j), mr))
         ghost = getattr(S.state, 'ghost', {}).get('ortho_left.max_rank_is_inf')
@@ -1168,3 +1168,203 @@ class Ortho(Contract):
 
     def effect(self, ex, state, A, inst, line):
         return sweep_effect(self, ex, state, A, line, left=False)
+
+
+# ----------------------------------------------------------------------------------------------------------------------
+# global SVD / pseudoinverse (C05, C06)
+
+@register
+class Svd(Contract):
+    name, func = 'TT.svd', 'svd'
+    props = ('C05', 'C06')
+
+    def instances(self):
+        return [{'overwrite': False}, {'overwrite': True}]
+
+    def defaults(self):
+        return {'threshold': SNum('thr0', nonzero=z3.BoolVal(False), nonneg=z3.BoolVal(True)), 'max_rank': INF, 'ortho_l': True, 'ortho_r': True, 'overwrite': False}
+
+    def call_inst(self, A):
+        ow = A.get('overwrite', False)
+        if not isinstance(ow, bool) or A.get('ortho_l', True) is not True or A.get('ortho_r', True) is not True:
+            raise Unsupported('svd with symbolic flags / without orthonormalisation')
+        return {'overwrite': ow}
+
+    def setup(self, ex, state, inst):
+        m0 = ex.ctx.mark0
+        mr = SMaxRank('max_rank')
+        state.assume(z3.Or(mr.is_inf, mr.val >= 1))
+        return {'self': mk_tt(state, 'self', m0), 'index': fresh('index'), 'threshold': SNum('threshold', nonneg=z3.BoolVal(True)),
+                'max_rank': mr, 'ortho_l': True, 'ortho_r': True, 'overwrite': inst['overwrite']}
+
+    def requires(self, S):
+        me = S.a['self']
+        d = zi(me.order)
+        yield '1<=index<=order-1', z3.And(zi(S.a['index']) >= 1, zi(S.a['index']) <= d - 1)
+        # derived from the reshape of the centre core: a vector-type tensor train
+        yield 'col_dims==1', FA(0, d, lambda j: lst_get(me.col_dims, j) == 1)
+
+    def modifies(self, S):
+        if not S.inst.get('overwrite'):
+            return [], []
+        me = S.o['self']
+        d = zi(me.order)
+
+        return [me.ref, me.cores.ref, me.ranks.ref], [(z3.IntVal(0), d - 1, lambda j: lst_get(me.cores, j).buf)]
+
+    def ensures(self, S, res):
+        me0 = S.o['self']
+        d, ix = zi(me0.order), zi(S.o['index'])
+        mr = S.o['max_rank']
+        ok = isinstance(res, tuple) and len(res) == 3 and isinstance(res[0], STT) and isinstance(res[2], STT) and isinstance(res[1], SArr)
+        yield 'returns-(u,s,v)', ok
+        if not ok:
+            return
+        u, s, v = res
+        yield 'wf(u)', wf(u)
+        yield 'wf(v)', wf(v)
+        yield 'orders', z3.And(zi(u.order) == ix, zi(v.order) == d - ix)
+        yield 'u-dims', z3.And(same_ints(u.row_dims, me0.row_dims, ix), FA(0, ix, lambda j: lst_get(u.col_dims, j) == 1))
+        yield 'v-dims', z3.And(FA(0, d - ix, lambda j: lst_get(v.row_dims, j) == lst_get(me0.row_dims, ix + j)), FA(0, d - ix, lambda j: lst_get(v.col_dims, j) == 1))
+        yield 'len(s)==u.ranks[-1]==v.ranks[0]', z3.And(s.shape[0] == lst_get(u.ranks, ix), s.shape[0] == lst_get(v.ranks, 0), s.shape[0] >= 1)
+        yield 'len(s)<=max_rank', cap_ok(s.shape[0], mr)
+        yield 'boundary-ranks', z3.And(lst_get(u.ranks, 0) == lst_get(me0.ranks, 0), lst_get(v.ranks, d - ix) == lst_get(me0.ranks, d))
+        yield 'u-cores-left-orthonormal', FA(0, ix, lambda j: lst_get(u.cores, j).flags['lorth'])
+        yield 'v-cores-right-orthonormal', FA(0, d - ix, lambda j: lst_get(v.cores, j).flags['rorth'])
+        yield 'u,v-distinct-objects', z3.And(u.ref != v.ref, u.cores.ref != v.cores.ref)
+        if not S.inst.get('overwrite'):
+            yield 'u-fresh', z3.And(meta_fresh(u, S.mark0), cores_fresh(u, S.mark0))
+            yield 'v-fresh', z3.And(meta_fresh(v, S.mark0), cores_fresh(v, S.mark0))
+            yield 's-fresh', s.buf >= S.mark0
+
+    def canary(self, S, res):
+        return zi(res[0].order) == zi(S.o['index']) + 1 if isinstance(res, tuple) else None
+
+    def effect(self, ex, state, A, inst, line):
+        from vt.e1.contract import mk_fresh_tt
+        if inst['overwrite']:
+            sweep_effect(self, ex, state, A, line, left=False)
+        u, v = mk_fresh_tt(state, 'u'), mk_fresh_tt(state, 'v')
+        k = fresh('ns')
+        s = SArr([k], False, state.alloc(), True)
+        s.descending_nonneg = True
+        return (u, s, v)
+
+
+@register
+class Pinv(Contract):
+    name, func = 'TT.pinv', 'pinv'
+    props = ('C05', 'C06')
+
+    def instances(self):
+        return [{'overwrite': False}, {'overwrite': True}]
+
+    def defaults(self):
+        return {'threshold': SNum('thr0', nonzero=z3.BoolVal(False), nonneg=z3.BoolVal(True)), 'ortho_l': True, 'ortho_r': True, 'overwrite': False}
+
+    def call_inst(self, A):
+        ow = A.get('overwrite', False)
+        if not isinstance(ow, bool):
+            raise Unsupported('pinv with symbolic flags')
+        return {'overwrite': ow}
+
+    def setup(self, ex, state, inst):
+        m0 = ex.ctx.mark0
+        return {'self': mk_tt(state, 'self', m0), 'index': fresh('index'), 'threshold': SNum('threshold', nonneg=z3.BoolVal(True)),
+                'ortho_l': True, 'ortho_r': True, 'overwrite': inst['overwrite']}
+
+    requires = Svd.requires
+    modifies = Svd.modifies
+
+    def ensures(self, S, res):
+        me0 = S.o['self']
+        d = zi(me0.order)
+        yield 'returns-TT', isinstance(res, STT)
+        if not isinstance(res, STT):
+            return
+        yield 'wf(result)', wf(res)
+        yield 'order', zi(res.order) == d
+        yield 'dims', z3.And(same_ints(res.row_dims, me0.row_dims, d), FA(0, d, lambda j: lst_get(res.col_dims, j) == 1))
+        yield 'boundary-ranks', z3.And(lst_get(res.ranks, 0) == lst_get(me0.ranks, 0), lst_get(res.ranks, d) == lst_get(me0.ranks, d))
+        yield 'result-lists-distinct', lists_distinct(res)
+        if not S.inst.get('overwrite'):
+            yield 'result-object-and-lists-fresh', meta_fresh(res, S.mark0)
+            yield 'result-buffers-fresh', cores_fresh(res, S.mark0)
+
+    def canary(self, S, res):
+        return zi(res.order) == zi(S.o['self'].order) + 1 if isinstance(res, STT) else None
+
+    def effect(self, ex, state, A, inst, line):
+        from vt.e1.contract import mk_fresh_tt
+        if inst['overwrite']:
+            sweep_effect(self, ex, state, A, line, left=False)
+        return mk_fresh_tt(state, 'pinv')
+
+
+@register
+class IsOperator(Contract):
+    name, func = 'TT.isoperator', 'isoperator'
+    props = ('C01',)
+
+    def setup(self, ex, state, inst):
+        return {'self': mk_tt(state, 'self', ex.ctx.mark0)}
+
+    def ensures(self, S, res):
+        me = S.o['self']
+        d = zi(me.order)
+        want = z3.Not(z3.Or(FA(0, d, lambda j: lst_get(me.row_dims, j) == 1), FA(0, d, lambda j: lst_get(me.col_dims, j) == 1)))
+        yield 'value', zb(res) == want if isinstance(res, (bool, z3.BoolRef)) else False
+
+    def canary(self, S, res):
+        return zb(res) == FA(0, zi(S.o['self'].order), lambda j: lst_get(S.o['self'].row_dims, j) == 1)
+
+    def effect(self, ex, state, A, inst, line):
+        return fresh('isop', 'bool')
+
+
+@register
+class Matricize(Contract):
+    """assumed at call sites (value-level); verified separately for index/shape safety"""
+    name, func = 'TT.matricize', 'matricize'
+    props = ()
+    verify = False
+
+    def effect(self, ex, state, A, inst, line):
+        return npmodel_new(state, [fresh('mm'), fresh('mn')])
+
+
+def npmodel_new(state, shape):
+    from vt.e1 import npmodel
+    return npmodel.new_arr(state, shape, fresh('cx', 'bool'))
+
+
+@register
+class Norm(Contract):
+    name, func = 'TT.norm', 'norm'
+    props = ('C01', 'C06')
+
+    def instances(self):
+        return [{'p': 1}, {'p': 2}, {'p': 3}]
+
+    def defaults(self):
+        return {'p': 2}
+
+    def setup(self, ex, state, inst):
+        return {'self': mk_tt(state, 'self', ex.ctx.mark0), 'p': inst['p']}
+
+    def requires(self, S):
+        # derived from the final reshape of the first core (p=2) / from matricize (p=1): first boundary rank 1
+        yield 'ranks[0]==1', lst_get(S.a['self'].ranks, 0) == 1
+
+    def exceptional(self, S):
+        return {'ValueError': S.a['p'] not in (1, 2)}
+
+    def ensures(self, S, res):
+        # frame (modifies nothing) is enforced by the frame obligations; the result is a scalar
+        yield 'returns-scalar', isinstance(res, SNum)
+
+    def canary(self, S, res):
+        return z3.BoolVal(False)
+
+    def effect(self, ex, state, A, inst, line):
+        return SNum('norm', nonneg=z3.BoolVal(True))
